@@ -69,7 +69,6 @@ def compile_modified_block(
     # Function inputs
     captured = [v for v, _ in modified_block.captured.values()]
     captured = non_copyable_front_others_back(captured)
-    args = [dfg[v] for v in captured]
 
     # Apply modifiers
     if modified_block.has_dagger():
@@ -140,6 +139,10 @@ def compile_modified_block(
                 array_to_std_array(ht.Qubit, qubit_num_args[i]), *control_array
             )
             ctrl_args.append(control_array)
+
+    # Read the captured variables only now: compiling the power and control
+    # expressions above may borrow captured values and thereby rebind their wires.
+    args = [dfg[v] for v in captured]
 
     # Call. Every control modifier prepends its control array to the inputs (and
     # outputs) of the function, so the array of the last control comes first.
